@@ -1,13 +1,15 @@
 #!/bin/sh
 # Re-validates every stored seeded change against the current /repo head (patch applies, demo passes/fails,
-# existing suite passes, verdict of the property's own check and of the cross-checks recorded before).
+# verdict of the property's own check and of the cross-checks recorded before; the existing-suite verdict is
+# carried over from the validation that ran it unless FULL=1).
 # usage: tools/revalidate_all.sh [parallelism] [ids...]
 cd "$(dirname "$0")/.."
 P=${1:-3}; shift 2>/dev/null
 IDS="$*"; [ -z "$IDS" ] && IDS=$(ls seeded)
+SKIP="--skip-suite"; [ -n "$FULL" ] && SKIP=""
 mkdir -p .build/reval
 for id in $IDS; do
   own=${id%%-*}
   extra=$(python3 -c "import json;d=json.load(open('seeded/$id/meta.json'));print(','.join(sorted(set(d.get('validation',{}).get('checks',{}))-{'$own'})))")
-  echo "$id $own${extra:+,$extra}"
-done | xargs -P "$P" -L 1 sh -c 'python3 tools/seeded.py validate seeded/$0 --checks $1 --keep $0 > .build/reval/$0.log 2>&1; echo "$0 done: $(grep -E "^C[0-9]+ " .build/reval/$0.log | tr "\n" ";") $(grep -E "TESTS FAIL|DOES NOT|DEMO (FAILS|PASSES)" .build/reval/$0.log | head -2)"'
+  echo "$id $own${extra:+,$extra} $SKIP"
+done | xargs -P "$P" -L 1 sh -c 'python3 tools/seeded.py validate seeded/$0 --checks $1 $2 --keep $0 > .build/reval/$0.log 2>&1; echo "$0 done: $(grep -E "^C[0-9]+ " .build/reval/$0.log | cut -c1-34 | tr "\n" ";") $(grep -E "TESTS FAIL|DOES NOT|DEMO (FAILS|PASSES)" .build/reval/$0.log | head -2)"'
